@@ -47,6 +47,13 @@ Notation POSTI := (posti maxvec cap_txin cap_txout cap_vecu8 cap_h32 pt_ok pk_ok
 Notation POSTO := (posto maxvec cap_txin cap_txout cap_vecu8 cap_h32 pt_ok pk_ok xonly_ok btctx_ok xpub_ok Hrip Hsha Hh160 Hh256 Hleaf Hbranch).
 Notation VCANON := (vcanon maxvec cap_txin cap_txout cap_vecu8 cap_h32 pt_ok pk_ok xonly_ok btctx_ok xpub_ok Hrip Hsha Hh160 Hh256 Hleaf Hbranch).
 
+(* ---- every field of the three regenerated tables is reachable: the key get_pairs writes for it (plain type byte, or 0xFC with
+   prefix "pset" and its subtype) is routed back to the same field by the decoder's dispatch, whatever the key data ---- *)
+Theorem C07_fields_reachable : forall T, In T [TG; TI; TO] -> forall i r k v, nth_error T i = Some r ->
+  (exists t, r_addr r = APlain t) \/ (exists s, r_addr r = APset s) ->
+  classify maxvec T (mk_key maxvec T (i, k, v)) = POk (i, k).
+Proof. intros T H i r k v R A. apply (field_reachable maxvec Hmax Hmin T) with (r := r); [|exact R|exact A]. destruct H as [E|[E|[E|[]]]]; subst T; vm_compute; reflexivity. Qed.
+
 (* ---- every well-formed PSET serializes to bytes that deserialize to the same PSET ---- *)
 Theorem C07_rt : forall p, WF p -> DESER (SER p) = POk p.
 Proof. exact (rt_c maxvec Hmax Hmin cap_txin cap_txout cap_vecu8 cap_h32 pt_ok pk_ok xonly_ok btctx_ok xpub_ok Hrip Hsha Hh160 Hh256 Hleaf Hbranch). Qed.
